@@ -11,6 +11,7 @@ CONSTANTS
   TaskGroups = {"tg"}
   GangApps = {}
   Guar <- MCGuarPre
+  WithRestart = FALSE
   PreemptOn = TRUE
   AsCoded = FALSE
   MaxHist = 15
